@@ -678,8 +678,10 @@ Definition fin_ok (fin : list fstmt) : bool :=
     && Bool.eqb (pool s') (pool s)
   )))))))))))).
 
+Definition codes_eqb (l : list Z) : bool :=
+  match l with [a; b] => Z.eqb a 426 && Z.eqb b 226 | _ => false end.
 Definition cancel_codes_ok (F : cfg) : bool :=
-  match c_cancel_codes F with Some [426%Z; 226%Z] => true | _ => false end.
+  match c_cancel_codes F with Some l => codes_eqb l | None => false end.
 
 Definition sound12 (F : cfg) : bool := workers_ok F && fin_ok (c_fin F).
 Definition sound14 (F : cfg) : bool :=
@@ -688,7 +690,7 @@ Definition sound14 (F : cfg) : bool :=
 
 (* ABOR is safe for a worker at this point (exactly the complement of the refuted stages) *)
 Definition cancelled_task_ok (F : cfg) : bool :=
-  match on_task_exn F ECancel with Some [426%Z; 226%Z] => true | _ => false end.
+  match on_task_exn F ECancel with Some l => codes_eqb l | None => false end.
 
 Definition abor_safe (F : cfg) (w : wrk) : bool :=
   let wf := c_w F (w_kind w) in
@@ -706,6 +708,25 @@ Definition abor_safe (F : cfg) (w : wrk) : bool :=
     | Detached | EnteringCtx _ | Seeking | Loop _ | ExitingCtx _ => negb (hole F w)   (* F4 *)
     | _ => false                                                       (* finishes before it can be cancelled: F3 *)
     end.
+
+(* ABOR, then everything that happens without further input: the cancelled workers unwind,
+   the dispatcher reaps them.  Result: final state, replies queued from ABOR on *)
+Definition abor_run (F : cfg) (st : state) : state * list Z :=
+  let '(st1, r1) := step F st Abor in
+  let st2 := unwind F st1 in
+  let '(st3, r3) := step F st2 Reap in
+  (st3, r1 ++ unwind_replies F st1 ++ r3).
+
+Definition ends (ev : event) : bool :=
+  match ev with Quit | PeerEOF | HandlerError | IdleTimeout | ServerClose => true | _ => false end.
+
+(* Server.close(): close the main listener, cancel every dispatcher, wait for them *)
+Record server := { main_listener : bool; sessions : list state }.
+Definition server_close (F : cfg) (srv : server) : server :=
+  {| main_listener := false;
+     sessions := map (fun st => unwind F (fst (step F st ServerClose))) (sessions srv) |}.
+Definition server_ledger_empty (F : cfg) (srv : server) : bool :=
+  negb (main_listener srv) && forallb (fun st => ledger_empty (ledger F st)) (sessions srv).
 
 (* ------------------------------------------------------------------ harness interface *)
 Definition kind_of_z (z : Z) : wkind :=
